@@ -1263,4 +1263,221 @@ theorem rebuild_NodeInv {s : NodeIds} (h : WeakInv s) : NodeInv s.rebuild := by
   · rw [hperm'.length_eq, livePairs_length]
     exact h.free.count.symm
 
+
+/-! ### `ref_node_add_many` -/
+
+theorem getD0_set_ne {g : List Int} {v w : Nat} {x : Int} (h : w ≠ v) : (g.set v x).getD w 0 = g.getD w 0 := by
+  simp [List.getD_eq_getElem?_getD, Ne.symm h]
+
+theorem getD0_set_self {g : List Int} {v : Nat} {x : Int} (h : v < g.length) : (g.set v x).getD v 0 = x := by
+  simp [List.getD_eq_getElem?_getD, h]
+
+/-- loop invariant of the duplicate-marking pass of `ref_node_add_many` (`done` = the part of the sorted
+    index list already visited, `pj` = the last index kept) -/
+structure MarkInv (g0 g : List Int) (pj : Nat) (done todo : List Nat) : Prop where
+  nodup : (done ++ todo).Nodup
+  bound : ∀ k ∈ done ++ todo, k < g0.length
+  len : g.length = g0.length
+  pjmem : pj ∈ done
+  todoSame : ∀ k ∈ todo, g.getD k 0 = g0.getD k 0
+  pjSame : g.getD pj 0 = g0.getD pj 0
+  only : ∀ k, g.getD k 0 = g0.getD k 0 ∨ g.getD k 0 = -1
+  below : ∀ a ∈ done, a ≠ pj → g.getD a 0 = -1 ∨ g.getD a 0 < g.getD pj 0
+  distinct : ∀ a ∈ done, ∀ b ∈ done, a ≠ b → g.getD a 0 ≠ -1 → g.getD a 0 ≠ g.getD b 0
+  ahead : ∀ k ∈ todo, g0.getD pj 0 ≤ g0.getD k 0
+  sorted : todo.Pairwise (fun a b => g0.getD a 0 ≤ g0.getD b 0)
+  survive : ∀ a ∈ done, ∃ b ∈ done, g.getD b 0 = g0.getD a 0
+
+theorem markDups_spec (p : List Nat) (g0 : List Int) :
+    ∀ (todo done : List Nat) (g : List Int) (pj : Nat), MarkInv g0 g pj done todo →
+      ∃ pj', MarkInv g0 (markDups p g pj todo) pj' (done ++ todo) [] := by
+  intro todo
+  induction todo with
+  | nil => intro done g pj h; exact ⟨pj, by simpa [markDups] using h⟩
+  | cons pi rest ih =>
+    intro done g pj h
+    obtain ⟨hnd, hbound, hlen, hpj, htodo, hpjs, honly, hbelow, hdist, hahead, hsorted, hsurv⟩ := h
+    have hnd' := List.nodup_append.1 hnd
+    have hpi_done : pi ∉ done := fun hm => hnd'.2.2 pi hm pi (by simp) rfl
+    have hpi_rest : pi ∉ rest := (List.nodup_cons.1 hnd'.2.1).1
+    have hpipj : pi ≠ pj := fun e => hpi_done (e ▸ hpj)
+    have hgpi : g.getD pi 0 = g0.getD pi 0 := htodo pi (by simp)
+    have hle : g0.getD pj 0 ≤ g0.getD pi 0 := hahead pi (by simp)
+    have hpilen : pi < g.length := by rw [hlen]; exact hbound pi (by simp)
+    have hassoc : done ++ [pi] ++ rest = done ++ pi :: rest := by simp
+    have hmemd : ∀ a, a ∈ done ++ [pi] ↔ a ∈ done ∨ a = pi := by intro a; simp
+    obtain ⟨hs1, hs2⟩ := List.pairwise_cons.1 hsorted
+    unfold markDups
+    split
+    · -- keep `pi`
+      rename_i hne
+      have hlt : g.getD pj 0 < g.getD pi 0 := by rw [hgpi, hpjs] at hne ⊢; omega
+      have := ih (done ++ [pi]) g pi
+        { nodup := by rw [hassoc]; exact hnd
+          bound := by rw [hassoc]; exact hbound
+          len := hlen
+          pjmem := by simp
+          todoSame := fun k hk => htodo k (by simp [hk])
+          pjSame := hgpi
+          only := honly
+          below := by
+            intro a ha hapi
+            rcases (hmemd a).1 ha with ha | ha
+            · by_cases hapj : a = pj
+              · subst hapj; exact Or.inr hlt
+              · rcases hbelow a ha hapj with h | h
+                · exact Or.inl h
+                · exact Or.inr (by omega)
+            · exact absurd ha hapi
+          distinct := by
+            intro a ha b hb hab hna
+            have hbd : ∀ c ∈ done, g.getD c 0 = -1 ∨ g.getD c 0 < g.getD pi 0 := by
+              intro c hc
+              by_cases hcpj : c = pj
+              · subst hcpj; exact Or.inr hlt
+              · rcases hbelow c hc hcpj with h | h
+                · exact Or.inl h
+                · exact Or.inr (by omega)
+            rcases (hmemd a).1 ha with ha1 | ha1
+            · rcases (hmemd b).1 hb with hb1 | hb1
+              · exact hdist a ha1 b hb1 hab hna
+              · rw [hb1]
+                rcases hbd a ha1 with h | h
+                · exact absurd h hna
+                · omega
+            · rcases (hmemd b).1 hb with hb1 | hb1
+              · rw [ha1]
+                rcases hbd b hb1 with h | h
+                · rw [h]; rw [ha1] at hna; exact hna
+                · omega
+              · exact absurd (ha1.trans hb1.symm) hab
+          ahead := fun k hk => hs1 k hk
+          sorted := hs2
+          survive := by
+            intro a ha
+            rcases (hmemd a).1 ha with ha | ha
+            · obtain ⟨b, hb, hbe⟩ := hsurv a ha
+              exact ⟨b, (hmemd b).2 (Or.inl hb), hbe⟩
+            · subst ha; exact ⟨a, by simp, hgpi⟩ }
+      rw [hassoc] at this
+      exact this
+    · -- mark `pi` as a duplicate
+      rename_i heq
+      have heq : g.getD pi 0 = g.getD pj 0 := by simpa using heq
+      have hset : ∀ k, k ≠ pi → (g.set pi (-1)).getD k 0 = g.getD k 0 := fun k hk => getD0_set_ne hk
+      have hself : (g.set pi (-1)).getD pi 0 = -1 := getD0_set_self hpilen
+      have hne_done : ∀ a ∈ done, a ≠ pi := fun a ha e => hpi_done (e ▸ ha)
+      have := ih (done ++ [pi]) (g.set pi (-1)) pj
+        { nodup := by rw [hassoc]; exact hnd
+          bound := by rw [hassoc]; exact hbound
+          len := by rw [List.length_set]; exact hlen
+          pjmem := by simp [hpj]
+          todoSame := by
+            intro k hk
+            rw [hset k (fun e => hpi_rest (e ▸ hk))]
+            exact htodo k (by simp [hk])
+          pjSame := by rw [hset pj (Ne.symm hpipj)]; exact hpjs
+          only := by
+            intro k
+            by_cases hk : k = pi
+            · subst hk; exact Or.inr hself
+            · rw [hset k hk]; exact honly k
+          below := by
+            intro a ha hapj
+            rcases (hmemd a).1 ha with ha | ha
+            · rw [hset a (hne_done a ha), hset pj (Ne.symm hpipj)]
+              exact hbelow a ha hapj
+            · subst ha; exact Or.inl hself
+          distinct := by
+            intro a ha b hb hab hna
+            rcases (hmemd a).1 ha with ha | ha
+            · rw [hset a (hne_done a ha)] at hna ⊢
+              rcases (hmemd b).1 hb with hb | hb
+              · rw [hset b (hne_done b hb)]
+                exact hdist a ha b hb hab hna
+              · subst hb; rw [hself]; exact hna
+            · subst ha; exact absurd hself hna
+          ahead := fun k hk => hahead k (by simp [hk])
+          sorted := hs2
+          survive := by
+            intro a ha
+            rcases (hmemd a).1 ha with ha | ha
+            · obtain ⟨b, hb, hbe⟩ := hsurv a ha
+              exact ⟨b, (hmemd b).2 (Or.inl hb), by rw [hset b (hne_done b hb)]; exact hbe⟩
+            · subst ha
+              exact ⟨pj, (hmemd pj).2 (Or.inl hpj), by rw [hset pj (Ne.symm hpipj), ← heq, hgpi]⟩ }
+      rw [hassoc] at this
+      exact this
+
+/-- the list after the duplicate-marking pass of `add_many` -/
+def dedupMarked (g0 : List Int) : List Int :=
+  match sortIdx g0 with
+  | [] => g0
+  | p0 :: rest => markDups (sortIdx g0) g0 p0 rest
+
+/-- what the pass guarantees: entries are only ever overwritten by `REF_EMPTY`, the survivors are pairwise
+    distinct, and every value survives at least once -/
+theorem dedupMarked_spec (g0 : List Int) :
+    (∀ x ∈ dedupMarked g0, x = -1 ∨ x ∈ g0) ∧
+    (dedupMarked g0).Pairwise (fun a b => a ≠ -1 → a ≠ b) ∧
+    (∀ x ∈ g0, x ∈ dedupMarked g0) := by
+  obtain ⟨hperm, hsorted⟩ := sortIdx_spec g0
+  cases hp : sortIdx g0 with
+  | nil =>
+    have hd : dedupMarked g0 = g0 := by unfold dedupMarked; rw [hp]
+    rw [hd]
+    rw [hp] at hperm
+    have hlen : g0.length = 0 := by
+      have := hperm.length_eq; simp at this; omega
+    have : g0 = [] := List.length_eq_zero_iff.1 hlen
+    subst this
+    simp
+  | cons p0 rest =>
+    have hd : dedupMarked g0 = markDups (p0 :: rest) g0 p0 rest := by unfold dedupMarked; rw [hp]
+    rw [hd]
+    rw [hp] at hperm hsorted
+    have hmem : ∀ k, k ∈ p0 :: rest ↔ k < g0.length := by
+      intro k; rw [hperm.mem_iff, List.mem_range]
+    have hnd : (p0 :: rest).Nodup := hperm.nodup_iff.2 List.nodup_range
+    have hsorted' : (p0 :: rest).Pairwise (fun a b => g0.getD a 0 ≤ g0.getD b 0) :=
+      List.pairwise_map.1 hsorted
+    obtain ⟨hs1, hs2⟩ := List.pairwise_cons.1 hsorted'
+    obtain ⟨pj', hI⟩ := markDups_spec (p0 :: rest) g0 rest [p0] g0 p0
+      { nodup := hnd
+        bound := fun k hk => (hmem k).1 hk
+        len := rfl
+        pjmem := by simp
+        todoSame := fun _ _ => rfl
+        pjSame := rfl
+        only := fun _ => Or.inl rfl
+        below := by intro a ha hne; simp at ha; exact absurd ha hne
+        distinct := by intro a ha b hb hab; simp at ha hb; exact absurd (ha.trans hb.symm) hab
+        ahead := hs1
+        sorted := hs2
+        survive := by intro a ha; exact ⟨a, ha, rfl⟩ }
+    simp only [List.singleton_append] at hI
+    generalize markDups (p0 :: rest) g0 p0 rest = g1 at hI
+    have hlen := hI.len
+    have hget : ∀ k (hk : k < g1.length), g1.getD k 0 = g1[k] := fun k hk => getD0_eq hk
+    refine ⟨?_, ?_, ?_⟩
+    · intro x hx
+      obtain ⟨k, hk, rfl⟩ := List.mem_iff_getElem.1 hx
+      rcases hI.only k with h | h
+      · right
+        rw [hget k hk, getD0_eq (by omega)] at h
+        rw [h]; exact List.getElem_mem _
+      · left; rw [← hget k hk]; exact h
+    · rw [List.pairwise_iff_getElem]
+      intro i j hi hj hij hne
+      have := hI.distinct i ((hmem i).2 (by omega)) j ((hmem j).2 (by omega)) (by omega)
+        (by rw [hget i hi]; exact hne)
+      rw [hget i hi, hget j hj] at this
+      exact this
+    · intro x hx
+      obtain ⟨a, ha, rfl⟩ := List.mem_iff_getElem.1 hx
+      obtain ⟨b, hb, hbe⟩ := hI.survive a ((hmem a).2 ha)
+      have hbl : b < g1.length := by rw [hlen]; exact (hmem b).1 hb
+      rw [hget b hbl, getD0_eq ha] at hbe
+      rw [← hbe]; exact List.getElem_mem _
+
 end Refine.Model.NodeIds
